@@ -9,9 +9,10 @@ Fails(ln) ==
   (IF StreamOK(ts, h) THEN {} ELSE {"stream-order"}) \cup (IF CompleteOK(ts, h) THEN {} ELSE {"stream-complete"})
   \cup (IF LaterScansFalseOK(h) THEN {} ELSE {"later-scans-false"}) \cup (IF ErrPrecedenceOK(h) THEN {} ELSE {"err-precedence"})
   \cup (IF FalseHasReason(h) THEN {} ELSE {"false-without-reason"})
+  \cup (IF ReadAheadOK(ln.ev) THEN {} ELSE {"read-ahead"})
 ASSUME \A i \in 1 .. Len(Lines) :
           Fails(Lines[i]) = {} \/ PrintT(<<"BAD", ToJson([i |-> i, why |-> Fails(Lines[i]), kf |-> {}])>>)
 ASSUME PrintT(<<"JUDGED", Len(Lines)>>)
-JInit == toks = << >> /\ pos = 0 /\ err = "none" /\ closed = FALSE /\ cancelled = FALSE /\ pc = "idle" /\ nxt = "nil" /\ hist = << >>
+JInit == InitWith(<< >>)
 JNext == UNCHANGED vars
 =============================================================================
